@@ -431,6 +431,8 @@ pub struct Decl {
     pub pre_vals: Vec<ValSpec>,
     /// C02: an earlier `sanitize(..)` block written before the main one
     pub pre_sans: Vec<SanSpec>,
+    /// C02: the glue must not name the error type (whatever error type an accepted unit has is fine)
+    pub opaque_err: bool,
 }
 
 impl Decl {
@@ -454,6 +456,7 @@ impl Decl {
             raw_attr: None,
             pre_vals: vec![],
             pre_sans: vec![],
+            opaque_err: false,
         }
     }
     pub fn has_validation(&self) -> bool {
@@ -679,6 +682,10 @@ impl Decl {
             w!(o, "pub type PE = {}ParseError{gen};", self.type_name);
         }
         // error mapping, wildcard-free: compiles iff the enum has exactly the declared variants
+        if self.opaque_err {
+            w!(o, "fn err<E>(_e: E) -> ErrR {{ ErrR::Ix(0) }}");
+            w!(o, "fn mk(raw: II) -> Option<TT> {{ TT::try_new(raw).ok() }}");
+        } else {
         match &self.vals {
             Vals::Std(vs) => {
                 let en = format!("{}Error", self.type_name);
@@ -702,6 +709,7 @@ impl Decl {
             Vals::None => {
                 w!(o, "fn mk(raw: II) -> Option<TT> {{ Some(TT::new(raw)) }}");
             }
+        }
         }
         // reference newtype with serde's own derive (differential partner for C04/C10)
         if self.has(Tr::Serialize) || self.has(Tr::Deserialize) {
@@ -897,7 +905,7 @@ impl Decl {
             w!(o, "    into_iter: vlib::g_into_iter!(),");
             w!(o, "    iter_ref: vlib::g_iter_ref!(),");
         }
-        if matches!(self.vals, Vals::Std(_)) {
+        if matches!(self.vals, Vals::Std(_)) && !self.opaque_err {
             w!(o, "    err_text: vlib::g_err_text!(),");
         }
         if !self.const_evals.is_empty() {
